@@ -1,1 +1,1 @@
-From PV Require Export Corr.CoreCases.
+From PV Require Export Corr.AllRand.
